@@ -506,3 +506,9 @@ Definition run_csequence (nifti : bool) (shape : list Z) (A : mat) (dim : list (
   let im := c_im c in
   Ok5 (a_shape (i_data im), i_aff im, i_dim im, srcs_of shape (i_data im)).
 Definition tag_conv (k : Z) (v : list Z) : list Z := map (fun x => x + k) v.
+
+(* what the slicer reads from the data block of a file-backed image: C06's fileslice (default
+   threshold heuristic, Fortran order) on the canonical index *)
+Definition run_file_slicer (file : list Z) (shape : list Z) (w off : Z) (ix : list idx) : r5 (list Z * list Z) :=
+  c <~ check_slicing ix shape ;;
+  lift6 (fileslice_h (threshold_heuristic SKIP_THRESH) file (map cidx_to_idx c) shape w off OrdF).
